@@ -135,6 +135,7 @@ func RunCheck(p Property, opt Options) int {
 	}
 
 	// determinism self-test as part of every thorough run: a sample of episodes twice, hashes must agree
+	var retried int64
 	selfN := 0
 	if opt.Tier == "thorough" {
 		selfN = 24
@@ -212,6 +213,15 @@ func RunCheck(p Property, opt Options) int {
 					to = 300 * time.Second
 				}
 				runs := env.Exec(scs, to)
+				for k, sc := range scs {
+					// a world that ran out of wall-clock time is run once more, alone and with more time: on a
+					// loaded machine a process can starve, and an episode is a function of its scenario, so
+					// the second run is the same episode (a world that really hangs times out again)
+					if runs[k] != nil && runs[k].TimedOut && !sc.World.Race {
+						atomic.AddInt64(&retried, 1)
+						runs[k] = env.Exec([]*scen.Scenario{sc}, 4*to)[0]
+					}
+				}
 				for k, sc := range scs {
 					eo := episodeOut{i: j.from + k, sc: sc, run: runs[k]}
 					eo.viols = judge(p, sc, runs[k], env)
@@ -350,6 +360,9 @@ func RunCheck(p Property, opt Options) int {
 	if err := ev.write(filepath.Join(opt.VerifDir, "evidence", p.ID()+".json")); err != nil {
 		logf("BUILD-TROUBLE: evidence: %v", err)
 		return 2
+	}
+	if n := atomic.LoadInt64(&retried); n > 0 {
+		logf("note: %d worlds ran out of wall-clock time and were run again (a loaded machine; episodes are functions of their scenario)", n)
 	}
 	if notRepro > 0 && exit == 0 {
 		exit = 2 // nothing replayable was found, but something was seen that does not replay: simulator trouble
